@@ -2,9 +2,18 @@ package main
 
 import (
 	"fmt"
+	"regexp"
 
 	"golang.org/x/tools/go/ssa"
 )
+
+var allocVerRe = regexp.MustCompile(`alloc@[0-9]+`)
+
+// invSig: the invariant instance with the version of the allocation map abstracted away. Package
+// invariants are monotone in the allocation map (checked by the obligation pkginv/L/alloc-monotone),
+// and the allocation map only grows, so an instance that held over an earlier allocation map and the
+// same versions of every other region still holds.
+func invSig(t string) string { return allocVerRe.ReplaceAllString(t, "alloc@*") }
 
 // Package invariants (`pkginv NAME: EXPR` in a contract file, scoped by `package`).
 //
@@ -60,10 +69,8 @@ func (g *Gen) invInstance(gi *GInv, fn *ssa.Function, heap Heap) string {
 func (g *Gen) assumePkgInvs(st *BState, fn *ssa.Function) {
 	for _, gi := range g.pkgInvs(fn) {
 		t := g.invInstance(gi, fn, st.heap)
-		if st.inv[gi.Name] == t {
-			continue
-		}
-		g.assume(st, t)
+		// recorded, not added to the path condition: every obligation generated while this instance is
+		// the latest one known to hold gets it as a hypothesis (see addObl)
 		st.inv[gi.Name] = t
 	}
 }
@@ -79,14 +86,48 @@ func (g *Gen) checkPkgInvsAgainst(st *BState, class, prefix, pos, guard string, 
 		if known[gi.Name] == t || st.inv[gi.Name] == t {
 			continue
 		}
+		if (known[gi.Name] != "" && invSig(known[gi.Name]) == invSig(t)) || (st.inv[gi.Name] != "" && invSig(st.inv[gi.Name]) == invSig(t)) {
+			// only the allocation map moved on: holds by monotonicity; make the current instance available
+			st.inv[gi.Name] = t
+			continue
+		}
 		goal := t
 		if guard != "true" {
 			goal = fmt.Sprintf("(=> %s %s)", guard, t)
 		}
 		g.addObl(st, class, prefix+gi.Name, pos, g.allProps(), goal, gi.Src)
-		g.assume(st, goal)
 		if guard == "true" {
 			st.inv[gi.Name] = t
+		} else {
+			g.assume(st, goal)
 		}
 	}
+}
+
+// allocMonotoneLemmas: for each package invariant, the obligation that it is monotone in the allocation map.
+func allocMonotoneLemmas(e *Engine, pkgPath string, fn *ssa.Function) []*Obligation {
+	var out []*Obligation
+	for _, gi := range e.specs.PkgInvs {
+		if gi.PkgPath != pkgPath {
+			continue
+		}
+		g := NewGen(e, fn, nil, nil)
+		g.fname = "pkginv"
+		g.entryHeap = Heap{}
+		g.prepareAxioms()
+		h1 := Heap{}
+		a1 := g.heapGet(h1, g.allocRegion())
+		t1 := g.invInstance(gi, fn, h1)
+		h2 := h1.clone()
+		a2 := g.newVersion(g.allocRegion())
+		h2["alloc"] = a2
+		t2 := g.invInstance(gi, fn, h2)
+		st := &BState{heap: h2, pc: "true", inv: map[string]string{}}
+		g.assume(st, t1)
+		g.assume(st, fmt.Sprintf("(forall ((r Int)) (! (=> (select %s r) (select %s r)) :pattern ((select %s r))))", a1, a2, a2))
+		o := g.addObl(st, "L", "alloc-monotone:"+gi.Name, gi.File, g.allProps(), t2, "the invariant still holds when more memory is allocated")
+		o.Name = "pkginv/L/alloc-monotone:" + gi.Name
+		out = append(out, o)
+	}
+	return out
 }
